@@ -82,7 +82,7 @@ def checkSibDisp (scale next : Ch) : Option Nat :=
 
 /-- `copy_index_reg`: characters copied (≤ 5) and the index `j` after them. -/
 def copyIndexReg (mem : Str) (j : Nat) : Str × Nat :=
-  let run := ((mem.drop j).takeWhile (fun c => (ch! 'a' ≤ c && c ≤ ch! 'x') || isDigit c)).take 5
+  let run := ((mem.drop j).takeWhile (fun c => (ch! 'a' ≤ c && c ≤ ch! 'z') || isDigit c)).take 5
   (run, j + run.length)
 
 /-- loop of `get_index_reg`; result: `none` = failure, `some (sibDisp, sibStr)`. -/
